@@ -39,10 +39,12 @@ func main() {
 	only := fs.String("only", "", "selftest: only this mutant")
 	verbose := fs.Bool("v", false, "verbose")
 	fast := fs.Bool("fast", false, "development: first solver only")
+	fresh := fs.Bool("fresh", false, "every obligation in its own solver process (no incremental pass)")
 	fs.Parse(os.Args[2:])
 	if *fast {
 		solvers = solvers[:1]
 	}
+	_ = fresh
 	if *tier == "" {
 		*tier = "quick"
 	}
